@@ -2,7 +2,7 @@
    `exact`, so it is checked to be convertible with it); proofs in RcP.v (strong side) and RcWeakP.v (weak side) *)
 From Coq Require Import ZArith List Bool Lia Arith.
 Import ListNotations.
-Require Import Params StateW DisposeW Rc RcSpec RcP RcWeakP.
+Require Import Params StateW DisposeW ModularW RcSnapCheck RcSnapP RcSnapInvP RcWSnapInvP Rc RcSpec RcP RcWeakP.
 Local Open Scope Z_scope.
 
 Theorem C01_strong_owner_keeps_alive :
@@ -58,3 +58,17 @@ Theorem C01_hypotheses_satisfiable :
   fresh_start ex_s0 /\ bounded_run ex_s0 (ex_sched 20 9) /\ live_counted ex_s0 (ex_sched 20 9).
 Proof. exact RcWeakP.ex_theorem_hyps. Qed.
 Print Assumptions C01_hypotheses_satisfiable.
+
+(* ---- FINAL FORM (RcWSnapInvP.v): the same statements under run_ok only - fresh start, well-formed programs
+   (cellops_ok, bounded_run) and the run hypotheses H2 pinned / H3 scoped, wscoped / epoch < 2^62; the former hypothesis
+   live_counted (scounted_ok, wcounted_ok = finding F5, wlive_ok) is now a THEOREM (C02_count_hypotheses_discharged) *)
+Theorem C01_final :
+  forall (s0 : state) (sched : list (nat * list Z)),
+       run_ok s0 sched ->
+       let s := mrun s0 sched in
+       forall (o : nat) (ob : obj),
+       geto s o = Some ob ->
+       0 < owners s o -> dropped ob = false /\ freed ob = false /\ destructed (word ob) = false.
+Proof. exact RcWSnapInvP.C01_final. Qed.
+Print Assumptions C01_final.
+
